@@ -1522,11 +1522,33 @@ def add_invariant_checks(cls: ClassT) -> None:
         # In those cases, we have to wrap __new__ instead of __init__.
         if init_func == object.__init__ and hasattr(cls, "__new__"):
             new_func = getattr(cls, "__new__")
-            setattr(cls, "__new__", _decorate_new_with_invariants(new_func))
+
+            # The same holds for the constructors as for the other members: a copy held by a base must not hide
+            # the constructor of a sibling class, and a wrapper which is merely inherited must not be copied.
+            if "__new__" not in cls.__dict__ and _is_inherited_copy(new_func):
+                native = _resolve_without_copies(cls=cls, name="__new__")
+                if isinstance(native, staticmethod):
+                    native = native.__func__
+
+                if native is not None and not _is_copy_of(
+                    copy=new_func, original=native
+                ):
+                    new_func = native
+                    unshadowed.add("__new__")
+
+            wrapper = _decorate_new_with_invariants(new_func)
+            if wrapper is not new_func or "__new__" in unshadowed:
+                if wrapper is not new_func and "__new__" not in cls.__dict__:
+                    setattr(wrapper, "__is_inherited_copy__", True)
+
+                setattr(cls, "__new__", wrapper)
         else:
             wrapper = _decorate_with_invariants(func=init_func, is_init=True)
-            if wrapper is not init_func:
-                setattr(cls, init_func.__name__, wrapper)
+            if wrapper is not init_func or "__init__" in unshadowed:
+                if wrapper is not init_func and "__init__" not in cls.__dict__:
+                    setattr(wrapper, "__is_inherited_copy__", True)
+
+                setattr(cls, "__init__", wrapper)
 
     # NOTE: A member which is inherited from a base and already checks the invariants (of the class of the instance)
     # must not be copied into this class. Otherwise, the copy would hide the overrides of that member in the sibling
